@@ -1001,7 +1001,10 @@ func (e *Engine) ghostCall(c *CallCtx, g string, fn *ssa.Function) *Term {
 		return App(DeclUF("fsIsLink", BoolS, StringS), c.args[0])
 	case "ufStr", "ufInt", "ufBool":
 		name := e.constStr(c.args[0])
-		vs := e.variadicArgs(st, c.args[1])
+		// the argument slice is packed by the caller just before the call: it
+		// lives in the caller's current state even when the call itself is
+		// evaluated in the old state
+		vs := e.variadicArgs(c.st, c.args[1])
 		var as []*Term
 		var ss []*Sort
 		for _, v := range vs {
